@@ -131,47 +131,103 @@ class WriteHeadUnit(Unit):
         return ex
 
     def replay(self, failure):
-        import tempfile, shutil, os, json
+        """native: the second save of a reader position with a simulated process death before / after EVERY file-system call it makes (open of the head or temp file,
+        os.rename / replace / remove / unlink); a fresh reader on the same head file must start from the previous or from the new position"""
+        import builtins, logging, os, shutil, tempfile
+        logging.disable(logging.CRITICAL)
         from openfilter.filter_runtime.rolllog import RollLog
-        d = tempfile.mkdtemp(prefix='verif_c14_')
-        try:
-            os.makedirs(os.path.join(d, 'logs'))
-            w = RollLog(os.path.join(d, 'logs'), 'txt', file_size=20)
-            for i in range(5):
-                w.write(f'record {i}', timestamp=1_700_000_000 + i)
-            w.close()
-            head = os.path.join(d, 'head')
-            r = RollLog(os.path.join(d, 'logs'), 'txt', rdonly=True, head=head)
-            r.read()
-            r.write_head()
-            good = open(head).read()
-            r.read()
-            real_open, crashed = open, []
-            import builtins
 
-            def crashing_open(p, mode='r', *a, **k):      # crash right after the head (or temp) file was created / truncated
-                f = real_open(p, mode, *a, **k)
-                if 'w' in mode and str(p).startswith(head):
-                    crashed.append(p)
-                    raise KeyboardInterrupt('crash injected after create/truncate')
-                return f
-            builtins.open = crashing_open
+        class Death(BaseException):
+            pass
+
+        def scenario(crash_at, stale_tmp=False):
+            """crash_at = (k, 'before' | 'after') or None (dry run); returns (calls made, first record a restarted reader delivers)"""
+            d = tempfile.mkdtemp(prefix='verif_c14_')
+            calls = []
+            real = dict(open=builtins.open, rename=os.rename, replace=os.replace, remove=os.remove, unlink=os.unlink, os_open=os.open, os_write=os.write, os_fsync=os.fsync, os_close=os.close)
+            fds = set()
             try:
-                r.write_head()
-            except KeyboardInterrupt:
-                pass
+                logs, head = os.path.join(d, 'logs'), os.path.join(d, 'head')
+                os.makedirs(logs)
+                w = RollLog(logs, 'txt', file_size=40)
+                for i in range(12):
+                    w.write(f'record-{i:02d}', timestamp=1_700_000_000 + i)
+                w.close()
+                r = RollLog(logs, 'txt', rdonly=True, head=head)
+                for _ in range(4):
+                    r.read()
+                r.write_head()                     # first save: position 4
+                for _ in range(3):
+                    r.read()                       # position 7, about to be saved
+                if stale_tmp:                      # a temp file left behind by an earlier process death, longer than any position record
+                    for cand in (head + '.tmp', head + '.new', head + '~'):
+                        with real['open'](cand, 'w') as f_:
+                            f_.write('["stale-temp-file-content-left-by-an-earlier-crash", 123456789012345678901234567890]\n' * 3)
+
+                def wrap(name):
+                    def f(*a, **k):
+                        if name in ('os_write', 'os_fsync', 'os_close'):
+                            touches = a and a[0] in fds
+                        else:
+                            touches = any(str(x).startswith(head) for x in a if isinstance(x, (str, bytes, os.PathLike)))
+                        if name == 'os_open' and touches and (len(a) < 2 or not (a[1] & (os.O_WRONLY | os.O_RDWR))):
+                            touches = False
+                        if not touches or (name == 'open' and not any(m in str(a[1] if len(a) > 1 else k.get('mode', 'r')) for m in 'wax+')):
+                            return real[name](*a, **k)
+                        idx = len(calls)
+                        calls.append(name)
+                        if crash_at == (idx, 'before'):
+                            raise Death()
+                        res = real[name](*a, **k)
+                        if name == 'os_open':
+                            fds.add(res)
+                        if crash_at == (idx, 'after'):
+                            if name == 'open':
+                                res.close()
+                            raise Death()
+                        return res
+                    return f
+                builtins.open = wrap('open')
+                for nm in ('rename', 'replace', 'remove', 'unlink'):
+                    setattr(os, nm, wrap(nm))
+                for nm in ('open', 'write', 'fsync', 'close'):
+                    setattr(os, nm, wrap('os_' + nm))
+                try:
+                    r.write_head()
+                except Death:
+                    pass
+                finally:
+                    builtins.open = real['open']
+                    for nm in ('rename', 'replace', 'remove', 'unlink'):
+                        setattr(os, nm, real[nm])
+                    for nm in ('open', 'write', 'fsync', 'close'):
+                        setattr(os, nm, real['os_' + nm])
+                    for fd in fds:
+                        try:
+                            real['os_close'](fd)
+                        except OSError:
+                            pass
+                try:
+                    r2 = RollLog(logs, 'txt', rdonly=True, head=head)
+                    first = r2.read()
+                except Exception as e:
+                    first = f'restart failed: {type(e).__name__}: {e}'
+                return calls, first
             finally:
-                builtins.open = real_open
-            after = open(head).read() if os.path.exists(head) else None
-            try:
-                RollLog(os.path.join(d, 'logs'), 'txt', rdonly=True, head=head)
-                restart = 'restart ok'
-            except Exception as e:
-                restart = f'restart failed: {type(e).__name__}: {e}'
-            return {'confirmed': after != good or restart != 'restart ok', 'inputs': 'crash injected right after the first create/truncate of write_head',
-                    'observed': {'head before': good, 'head after crash': after, 'restart': restart}, 'required': 'previous or new valid position'}
-        finally:
-            shutil.rmtree(d, ignore_errors=True)
+                shutil.rmtree(d, ignore_errors=True)
+        obs = []
+        for stale in (False, True):
+            calls, first = scenario(None, stale)
+            tag = ' (a stale temp file of an earlier crash is lying around)' if stale else ''
+            if first != 'record-07':
+                obs.append(f'without a crash the restart delivers {first!r} first, not record-07{tag}')
+            for k in range(len(calls)):
+                for when in ('before', 'after'):
+                    _, first = scenario((k, when), stale)
+                    if first not in ('record-04', 'record-07'):
+                        obs.append(f'process death {when} the {calls[k]}() call (#{k} of {calls}): the restarted reader starts with {first!r}{tag}')
+        return {'confirmed': bool(obs), 'inputs': f'second save of the position, death injected before / after each of its file-system calls {calls}', 'observed': obs[:4] or 'previous or new position after every crash point',
+                'required': 'a reader stopped at any instant restarts from the previously saved or the newly saved position'}
 
 
 class ReModModel:
